@@ -212,6 +212,10 @@ PLAN = e1prop.Plan('C13', LS_ROWS, cfgs=('v6', 'v6', 'v7', 'v5', 'v6-nosec', 'v7
                    hooked=(False, False, True))
 
 
+from vf.props import c02 as _c02  # noqa: E402
+PLAN_DUAL = _c02.make_dual_plan('C13')
+
+
 def run(ctx):
     ctx.rule = ('Direct calls of mem_a_get/set, mem_u_get/set, mem_u_unpriv_get/set for the complete matrix size {1,2,4,8} x address offset 0..7 x base '
                 '{mid-device, just below a device end, just below 2^32 (wrap to 0), 0} x CPSR.E x SCTLR.A x SCTLR.U (where the architecture version has '
@@ -226,6 +230,7 @@ def run(ctx):
     tasks = [(shard_matrix, (i, np_, ctx.shard_seed(i), ctx.n(2, 24))) for i in range(np_)]
     tasks += [(shard_fetch, (ctx.shard_seed(100 + i), ctx.n(800, 15000))) for i in range(4)]
     tasks += [(e1prop.shard, ('vf.props.c13:PLAN', ctx.shard_seed(200 + i), ctx.n(300, 6000))) for i in range(16)]
+    tasks += [(e1prop.shard, ('vf.props.c13:PLAN_DUAL', ctx.shard_seed(300 + i), ctx.n(150, 3000))) for i in range(8)]
     ctx.pmap(_dispatch, tasks)
     for b, v in list(ctx.acc.viol.items()):
         if isinstance(v['case'], dict) and 'poke' in v['case']:
